@@ -535,6 +535,28 @@ def history_doc(doc, history, res, expect=None):
             add_violation(res, "argument_unchanged", dict(case, history=history[:step + 1]), enc(snap), enc(doc), "%s mutated the document it was given" % op[0], kind="mutated:" + op[0])
             return
         res["fps"].add(fp(repr(enc(got))))
+        # the caller owns what it was given back: edit it, so that a loader handing out a cached or aliased object shows up
+        # as a different result in the next step
+        _scribble(got)
+        if not deep_equal(doc, snap):
+            add_violation(res, "argument_unchanged", dict(case, history=history[:step + 1]), enc(snap), enc(doc),
+                          "the object returned by %s shares mutable parts with the document it was given" % op[0], kind="aliased:" + op[0])
+            return
+
+
+def _scribble(x, depth=0):
+    if depth > 6:
+        return
+    if isinstance(x, dict):
+        for v in list(x.values()):
+            _scribble(v, depth + 1)
+        x.clear()
+        x["scribbled"] = True
+    elif isinstance(x, list):
+        for v in list(x):
+            _scribble(v, depth + 1)
+        x.clear()
+        x.append("scribbled")
 
 
 def vacuity(agg, tier):
